@@ -469,6 +469,66 @@ func CutWhere(pred GuardPred) CutFunc {
 		}
 		c, neg := StripNot(iff.Cond)
 		s := pred(c)
+		if s == 0 {
+			// short-circuit chains: `a && b` is a phi of the constant false (a failed) and b;
+			// its true edge implies b. `a || b` is a phi of the constant true and b; its false
+			// edge implies !b.
+			if ph, ok := c.(*ssa.Phi); ok {
+				var rest []ssa.Value
+				allFalse, allTrue := true, true
+				for _, e := range ph.Edges {
+					if bv, isK := ConstBool(e); isK {
+						if bv {
+							allFalse = false
+						} else {
+							allTrue = false
+						}
+						continue
+					}
+					rest = append(rest, e)
+				}
+				if len(rest) >= 2 && len(rest) == len(ph.Edges) {
+					// a flag assigned on every branch from a guard-like value (`ok = f(x)` in
+					// one branch, `ok = g(x)` in the other): the flag being true implies the
+					// guard when every contribution is a guard
+					all := 0
+					for _, e := range rest {
+						ec, eneg := StripNot(e)
+						es := pred(ec)
+						if eneg {
+							es = -es
+						}
+						switch {
+						case es > 0 && all >= 0:
+							all = 1
+						case es < 0 && all <= 0:
+							all = -1
+						default:
+							all = 2
+						}
+						if all == 2 {
+							break
+						}
+					}
+					if all == 1 || all == -1 {
+						s = all
+					}
+				}
+				if len(rest) == 1 {
+					rc, rneg := StripNot(rest[0])
+					rs := pred(rc)
+					if rneg {
+						rs = -rs
+					}
+					if allFalse && rs > 0 { // &&: true edge implies the conjunct
+						s = 1
+					}
+					if allTrue && rs < 0 { // ||: false edge implies the negated disjunct
+						s = -1
+					}
+				}
+			}
+		}
 		if neg {
 			s = -s
 		}
